@@ -15,11 +15,16 @@ CpClasses == {"valid", "size0", "size2^62", "size2^62+", "size2^63", "size2^64-1
               "json-null-shard", "json-inactive-shard", "json-odd-types"}
 \* what its tile / proof endpoints answer
 DataClasses == {"valid", "truncated", "oversized", "random", "status404", "status500", "empty", "json-null", "json-odd"}
+\* what the DISTRIBUTOR answers to the PUT of a witnessed checkpoint (one cycle of the REST distributor, run as Main runs it: with the
+\* process context, which has no deadline; only the HTTP client has a timeout)
+DistAnswers == {"200", "status404", "status500", "empty", "oversized", "random", "redirect-loop", "redirect-elsewhere",
+                "retry-after-seconds", "retry-after-date", "slow-headers", "slow-body"}
 
 VARIABLES scen, phase, outcome
 vars == <<scen, phase, outcome>>
 
 Init == /\ scen \in [feeder : Feeders, wit : WitnessStates, cp : CpClasses, data : DataClasses]
+                    \cup [feeder : {"distributor"}, wit : {"held"}, cp : {"valid"}, data : DistAnswers]
         /\ phase = "start" /\ outcome = "none"
 
 \* a cycle ends with the cosigned checkpoint or with an error - nothing else
